@@ -291,10 +291,31 @@ fn arb_case(depth: u32) -> BoxedStrategy<Case> {
         .boxed()
 }
 
+/// Deeply nested trees (the quantifier says "arbitrary nesting"): nested parentheses, nested
+/// two-argument calls, nested `v + (v * ( ... ))` groups, to depth 60.
+fn arb_deep() -> BoxedStrategy<Case> {
+    (1usize..60, 0u8..4, gen::arb_ctx(AstCfg::names(&VARS), AstCfg::names(&["f", "g"])), 0u8..4)
+        .prop_map(|(n, kind, ctx, perm)| {
+            let v = |i: usize| Ast::Var(VARS[i % VARS.len()].to_string());
+            let mut e = v(0);
+            for i in 0..n {
+                e = match kind {
+                    0 => Ast::Bin(refmodel::ast::BinOp::Add, Box::new(v(i)), Box::new(Ast::Bin(refmodel::ast::BinOp::Mul, Box::new(v(i + 1)), Box::new(e)))),
+                    1 => Ast::Call("f".into(), Box::new(Ast::Tuple(vec![v(i), e]))),
+                    2 => Ast::Tuple(vec![e, v(i)]),
+                    _ => Ast::Chain(vec![Ast::Assign(refmodel::ast::AssignOp::Set, VARS[i % VARS.len()].to_string(), Box::new(e)), v(i + 1)]),
+                };
+            }
+            // all-true bits: redundant parentheses everywhere add further depth
+            Case { ast: e, bits: vec![kind % 2 == 0], ctx, perm }
+        })
+        .boxed()
+}
+
 pub fn run(rep: &Report) {
     rep.set_rule(
         "random well-formed ASTs (C02/C05 domain, identifiers from a small alphabet so names repeat, nested sequences, \
-         empty parentheses, n-ary nodes, calls in calls) rendered with redundant parentheses; (i) the five immutable \
+         empty parentheses, n-ary nodes, calls in calls; nesting to depth 60 and beyond with redundant parentheses) rendered with redundant parentheses; (i) the five immutable \
          iterators equal the occurrence list (pre-order = source order) computed from the generating AST and its \
          class-specific sub-sequences, the five mutable iterators visit the same occurrences and overwriting through \
          them changes exactly those; (ii) an unknown variable / function reported by evaluation is listed by the \
@@ -308,6 +329,13 @@ pub fn run(rep: &Report) {
     common::enumerate(rep, "fixed", fixed.len() as u64, 1, &|i, l| check_source(fixed[i as usize], &ctx, 1, None, l));
     let n = rep.tier.pick(300_000u64, 4_000_000);
     let depth = rep.tier.pick(5u32, 8);
+    let n_deep = rep.tier.pick(6_000u64, 100_000);
+    common::random_search(rep, "deep-trees", 141, n_deep, &arb_deep, &|c: &Case, l| {
+        let toks = render_tokens(&c.ast, &mut BitChoices::new(&c.bits));
+        let src = tok::render_spaced(&toks);
+        l.label("deep tree");
+        check_source(&src, &c.ctx, c.perm, Some(&c.ast), l)
+    });
     common::random_search(rep, "random-trees", 140, n, &move || arb_case(depth), &|c: &Case, l| {
         let toks = render_tokens(&c.ast, &mut BitChoices::new(&c.bits));
         let src = tok::render_spaced(&toks);
